@@ -180,6 +180,8 @@ struct WorkerState<'a> {
     skip: u64,
     counting: bool,
     t0: Instant,
+    /// DAG steps spent since the first failure (shrinking); bounds the shrink phase by work, not time
+    shrink_work: u64,
 }
 
 impl<'a> WorkerState<'a> {
@@ -198,6 +200,9 @@ impl<'a> WorkerState<'a> {
         cx.want_sample = self.counting && self.st.samples.len() < 4;
         let (ran, meters) = run_stream(self.spec, &mut cx);
         CASE_START_MS.store(u64::MAX, Ordering::SeqCst);
+        if !self.counting {
+            self.shrink_work = self.shrink_work.saturating_add(meters.fuel.max(1000));
+        }
         if self.counting {
             self.st.evaluations += 1;
             self.st.max_fuel = self.st.max_fuel.max(meters.fuel);
@@ -286,6 +291,7 @@ pub fn worker(spec: &Spec, tier: Tier, seed: u64, shard: usize, nshards: usize, 
         skip,
         counting: true,
         t0,
+        shrink_work: 0,
     };
     let mut stop = false;
     // phase 0: committed regressions (shard 0 only)
@@ -343,6 +349,12 @@ pub fn worker(spec: &Spec, tier: Tier, seed: u64, shard: usize, nshards: usize, 
         let ws_cell = RefCell::new(&mut ws);
         let res = runner.run(&strat, |bytes| {
             let mut w = ws_cell.borrow_mut();
+            // shrinking is bounded by work (2^28 DAG steps, at least 1000 per candidate): beyond
+            // that every further candidate is declined unseen and proptest returns the smallest
+            // failing stream found so far
+            if !w.counting && w.shrink_work > (1 << 28) {
+                return Ok(());
+            }
             match w.run(&bytes) {
                 Ok(()) => Ok(()),
                 Err(m) => {
